@@ -16,6 +16,7 @@
 """Some generic utility functions used by Gin."""
 
 import contextlib
+import inspect
 
 
 def augment_exception_message_and_reraise(exception, message):
@@ -35,10 +36,32 @@ def augment_exception_message_and_reraise(exception, message):
       return str(exception) + message
 
   ExceptionProxy.__name__ = type(exception).__name__
-
-  proxy = ExceptionProxy()
-  proxy.args = exception.args  # `args` is a C-level slot: never reaches __getattr__.
   ExceptionProxy.__qualname__ = type(exception).__qualname__
+
+  # Fields stored in C-level members or slots (`errno`, `filename`, `value`,
+  # `lineno`, `name`, ...) are found on the class and so never reach
+  # `__getattr__`: forward them to the original exception explicitly.
+  def forward(name):
+    return property(lambda self: getattr(exception, name),
+                    lambda self, value: setattr(exception, name, value))
+
+  for base in type(exception).__mro__:
+    if base in (BaseException, object):
+      continue  # `args`, the traceback and the context live on the proxy.
+    for name, member in list(vars(base).items()):
+      if (inspect.isdatadescriptor(member) and
+          not isinstance(member, property) and not name.startswith('__')):
+        setattr(ExceptionProxy, name, forward(name))
+
+  # Classes whose `__new__` takes arguments (e.g. exception groups) can't be
+  # instantiated without them.
+  try:
+    proxy = ExceptionProxy.__new__(ExceptionProxy, *exception.args)
+  except TypeError:
+    proxy = ExceptionProxy.__new__(ExceptionProxy)
+  proxy.args = exception.args  # `args` is a C-level slot: never reaches __getattr__.
+  # Instance attributes that shadow class-level defaults never reach __getattr__.
+  proxy.__dict__.update(getattr(exception, '__dict__', {}))
   raise proxy.with_traceback(exception.__traceback__)
 
 
